@@ -96,7 +96,7 @@ func (fr *Frame) callFn(st *State, site ssa.Instruction, fn *ssa.Function, args 
 		}
 		return r
 	}
-	if c := v.lookupContract(fn); c != nil && c.Options["inline"] == "" && !(fr.top && fr.fn == fn) && !v.opaqueNames[fn.Name()] {
+	if c := v.lookupContract(fn); c != nil && c.Options["inline"] == "" && !(fr.top && fr.fn == fn) && !v.opaqueNames[fn.Name()] && !v.inlineNames[fn.Name()] {
 		sameLayer := v.layerKeyOf(fn.Pkg, c) == v.curLayerKey
 		if !sameLayer && v.layerCompatible(fn, c) {
 			// a contract stated at a smaller layer (fewer abstract types, same interpretation of the shared ones)
